@@ -14,7 +14,12 @@ Legs:
              real code are compared with `setGhostAll (consFaces | radialFaces ...)` of the model and the model
              evaluates the very term of the zero-sum theorems of Props/C05b.lean, which must be exactly 0.
   sim      : Diffusion and Cahn-Hilliard runs with every solver (fixed and adaptive), integral recorded
-             after every step; numba kernels with source semantics for breadth and JIT for a subset."""
+             after every step; numba kernels with source semantics for breadth and JIT for a subset.
+  run      : correspondence of the run theorems (Props/C05d.lean): diffusion / Cahn-Hilliard runs with the fixed-step Euler,
+             Runge-Kutta, implicit Euler and Crank-Nicolson solvers on all grid classes; the driver handler `c05.run` evaluates `solverRuns (validCells shape) solver
+             (consRate ...)` (Model/ConserveRun.lean: the controller loop around Solvers.fixedStepper around Solvers.eulerStep / rk4Step at the padded-array
+             type) over exact rationals -> final `state.data`, step count, returned time and the conserved total must agree
+             with `eq.solve(...)`, and the model total before/after must be exactly equal."""
 import math
 from fractions import Fraction
 
@@ -26,7 +31,7 @@ from harness.common.isolated import run_many
 
 PID = "C05"
 LEVEL = "proof"
-EXTRA_PROP_FILES = ["C01Nine", "C05b", "C05c"]  # 9-point Laplacian; n-d + ghost-cell composition; solver steps
+EXTRA_PROP_FILES = ["C01Nine", "C05b", "C05c", "C05d"]  # 9-point Laplacian; n-d + ghost-cell composition; solver steps; runs
 REQUIRED_THEOREMS = [
     "stencil9_integral_zero", "cartLaplace9_integral_zero_neumann", "cartLaplace9_integral_zero_periodic_y", "cartLaplace9_integral_zero_periodic_x",
     "sumTo_telescope", "cart1_laplace_sum", "cart1_laplace_integral_zero_neumann", "cart1_laplace_integral_zero_periodic",
@@ -58,7 +63,17 @@ REQUIRED_THEOREMS = [
     "adaptiveLoop_conserves", "fixpointLoop_conserves", "fixedStepper_euler_rk4_conserve",
     "cart1Rate_conserving", "cart2Rate_conserving", "cart3Rate_conserving", "polarRate_conserving", "sphRate_conserving",
     "cylRate_conserving", "polar_euler_run_conserves",
+    # Props/C05d.lean: whole runs of the model the driver evaluates (c05.run), divergence flux identities
+    "wholeStep_euler", "wholeStep_rk4", "cellStep_conserves", "fixpointLoop_invariant", "cellImplicitStep_conserves", "cellCNStep_conserves",
+    "solverStep_conserves", "solverRun_conserves", "solverRuns_conserves", "cellSteps_conserve",
+    "cart1_run_conserves", "cart2_run_conserves", "cart3_run_conserves", "polar_run_conserves", "sph_run_conserves",
+    "cyl_run_conserves",
+    "twoField_conserving", "twoField_readsOnly", "cart1_run2_conserves", "cart2_run2_conserves", "cart3_run2_conserves",
+    "polar_run2_conserves", "sph_run2_conserves", "cyl_run2_conserves",
+    "d1_fun_sum_flux", "faceFlux_zero", "cart2_divergence_sum", "cart3_divergence_sum",
+    "cyl_divergence_sum", "cyl_divergence_defect", "cyl_divergence_not_conservative",
 ]
+MIN_LEGS = {"run": 36}
 RULE = ("integral leg: seed-derived grids of all classes, integer field data, one random condition per side of any class "
         "(value, derivative, mixed, curvature, expressions, periodic; homogeneous and inhomogeneous) so that the integral is "
         "generally non-zero; zero leg: conserving conditions with random real data (also in the stale ghost cells) on all classes "
@@ -279,8 +294,183 @@ def sim_case(arg):
     return {"i0": i0, "rec": rec, "scale": scale}
 
 
+def run_case(arg):
+    """a short run of the real fixed-step solver; returns final data, steps, final time, integral"""
+    import logging
+    import pde
+
+    logging.getLogger("pde").setLevel(logging.ERROR)
+    gd, eqname, coef, solver, backend, dt, ts, te, data = arg[:9]
+    skw = arg[9] if len(arg) > 9 else {}
+    grid = c02.make_grid(gd)
+    cons = lambda s: s  # noqa: the conserved field
+    if eqname == "two-fields":  # data = cells of `a`, then cells of `c`; only `c` is conserved
+        half = len(data) // 2
+        fa = pde.ScalarField(grid, np.array(data[:half], dtype=float).reshape(grid.shape), label="a")
+        fc = pde.ScalarField(grid, np.array(data[half:], dtype=float).reshape(grid.shape), label="c")
+        state = pde.FieldCollection([fa, fc])
+        eq = pde.PDE({"a": "laplace(a) - a", "c": f"laplace(c**3 - c + {coef!r} * a)"},
+                     bc_ops={"a:laplace": "auto_periodic_dirichlet", "c:laplace": "auto_periodic_neumann"})
+        cons = lambda s: s["c"]  # noqa
+    else:
+        state = pde.ScalarField(grid, np.array(data, dtype=float).reshape(grid.shape))
+        if eqname == "diffusion":
+            eq = pde.DiffusionPDE(diffusivity=coef, bc="auto_periodic_neumann")
+        else:
+            eq = pde.CahnHilliardPDE(interface_width=coef, bc_c="auto_periodic_neumann", bc_mu="auto_periodic_neumann")
+    i0 = float(cons(state).integral)
+    sc0 = float(np.sum(grid.cell_volumes * np.abs(cons(state).data)))
+    try:
+        res, info = eq.solve(state, t_range=(ts, te) if ts else te, dt=dt, solver=solver, backend=backend, tracker=None,
+                             ret_info=True, **(skw or {"adaptive": False}))
+    except Exception as e:  # noqa
+        return {"error": f"{type(e).__name__}: {e}"}
+    return {"data": [float(x) for x in res.data.ravel()], "steps": int(info["solver"]["steps"]),
+            "t": float(info["controller"]["t_final"]), "i0": i0, "i1": float(cons(res).integral),
+            "scale": max(sc0, float(np.sum(grid.cell_volumes * np.abs(cons(res).data)))) + 1e-300}
+
+
+def judge_run(rr):
+    """the property on one real run: the integral after the run equals the initial one (NaN-safe)"""
+    return bool(abs(rr["i1"] - rr["i0"]) <= 1e-9 * rr["scale"])
+
+
+RUN_STRATA = [  # (class, axes, scheme, equation, largest number of cells per axis, largest number of steps)
+    ("cart", 1, "euler", "diffusion", 6, 6), ("cart", 1, "rk4", "diffusion", 5, 3), ("cart", 1, "euler", "cahn-hilliard", 5, 3),
+    ("cart", 1, "rk4", "cahn-hilliard", 3, 1), ("cart", 2, "euler", "diffusion", 4, 4), ("cart", 2, "rk4", "diffusion", 3, 2),
+    ("cart", 2, "euler", "cahn-hilliard", 3, 2), ("cart", 3, "euler", "diffusion", 3, 3), ("cart", 3, "rk4", "diffusion", 2, 1),
+    ("polar", 1, "euler", "diffusion", 6, 5), ("polar", 1, "rk4", "diffusion", 5, 2), ("polar", 1, "euler", "cahn-hilliard", 5, 3),
+    ("sph", 1, "euler", "diffusion", 6, 5), ("sph", 1, "rk4", "diffusion", 5, 2), ("sph", 1, "euler", "cahn-hilliard", 5, 3),
+    ("cyl", 2, "euler", "diffusion", 4, 4), ("cyl", 2, "rk4", "diffusion", 3, 2), ("cyl", 2, "euler", "cahn-hilliard", 3, 2),
+    # two coupled fields (`a` not conserved, `c` conserved): twoFieldRate
+    ("cart", 1, "euler", "two-fields", 5, 3), ("cart", 2, "euler", "two-fields", 3, 2), ("cart", 1, "rk4", "two-fields", 3, 1),
+    ("polar", 1, "euler", "two-fields", 4, 2), ("sph", 1, "euler", "two-fields", 4, 2), ("cyl", 2, "euler", "two-fields", 3, 2),
+    ("cart", 3, "euler", "two-fields", 2, 2),
+    # implicit Euler and Crank-Nicolson (fixed-point iterations; linear equation: exact rationals stay small)
+    ("cart", 1, "implicit", "diffusion", 5, 3), ("cart", 2, "implicit", "diffusion", 3, 2), ("cart", 3, "crank-nicolson", "diffusion", 2, 2),
+    ("cart", 1, "crank-nicolson", "diffusion", 5, 3), ("cart", 2, "crank-nicolson", "diffusion", 3, 2),
+    ("polar", 1, "implicit", "diffusion", 5, 2), ("sph", 1, "crank-nicolson", "diffusion", 5, 2), ("sph", 1, "implicit", "diffusion", 4, 2),
+    ("polar", 1, "crank-nicolson", "diffusion", 4, 2), ("cyl", 2, "implicit", "diffusion", 3, 2), ("cyl", 2, "crank-nicolson", "diffusion", 3, 2),
+]
+RUN_SOLVER = {"euler": "euler", "rk4": "runge-kutta", "implicit": "implicit", "crank-nicolson": "crank-nicolson"}
+RUN_CLS = {"cart": "CartesianGrid", "polar": "PolarSymGrid", "sph": "SphericalSymGrid", "cyl": "CylindricalSymGrid"}
+
+
+def gen_run(rng, stratum):
+    cls, nax, scheme, eqname, nmax, smax = stratum
+    shape = [rng.randint(1, nmax) for _ in range(nax)]
+    dxs = [rng.choice([0.5, 1.0, 0.75, 0.25, 2.0]) for _ in range(nax)]
+    lo = [rng.choice([0.0, 1.0, 0.5]) if (cls != "cart" and i == 0) else rng.choice([0.0, -1.0, 0.5]) for i in range(nax)]
+    per = [False if (cls != "cart" and i == 0) else rng.random() < 0.5 for i in range(nax)]
+    if cls in ("polar", "sph"):
+        per = [False]
+    gd = {"cls": RUN_CLS[cls], "shape": shape, "bounds": [[l, l + d * n] for l, d, n in zip(lo, dxs, shape)], "periodic": per}
+    dt = rng.choice([1 / 64, 1 / 128, 3 / 256]) if eqname == "diffusion" else rng.choice([1 / 1024, 1 / 2048])
+    if eqname == "two-fields":
+        dt = rng.choice([1 / 256, 1 / 512])
+    skw = {}
+    if scheme in ("implicit", "crank-nicolson"):  # documented solver options; small steps so that the iteration contracts (mostly)
+        dt = rng.choice([1 / 512, 1 / 1024, 1 / 256])
+        skw = {"maxiter": rng.choice([100, 100, 6, 3]), "maxerror": rng.choice([2.0 ** -10, 2.0 ** -14, 2.0 ** -20])}
+        if scheme == "crank-nicolson":
+            skw["explicit_fraction"] = rng.choice([0, 0, 0.25, 0.5])
+    steps = rng.randint(1, smax)
+    # the end time is a multiple of dt, or off by a quarter / a half step (the step count is a rounding: ties to even)
+    off = rng.choice([0, 0, 0.25, -0.25, 0.5]) if steps > 1 else rng.choice([0, 0.25, -0.5])
+    ts = rng.choice([0, 0, 0.5])
+    te = ts + (steps + off) * dt
+    coef = rng.choice([0.5, 1.0, 0.25, 1.5])
+    data = [rng.randint(-12, 12) / 4 for _ in range(int(np.prod(shape)) * (2 if eqname == "two-fields" else 1))]
+    return {"grid": gd, "eq": eqname, "coef": coef, "scheme": scheme, "dt": dt, "ts": ts, "te": te, "data": data,
+            "backend": rng.choice(["numpy", "numba"]), "solver_options": skw}
+
+
+def run_request(c):
+    gd = c["grid"]
+    dxs = [Fraction(b[1] - b[0]) / n for b, n in zip(gd["bounds"], gd["shape"])]
+    req = {"cls": CLS[gd["cls"]], "shape": gd["shape"], "lo": [q(b[0]) for b in gd["bounds"]], "dx": [q(d) for d in dxs],
+           "per": [bool(p) for p in gd["periodic"]], "scheme": c["scheme"], "eq": c["eq"], "coef": q(c["coef"]),
+           "dt": q(c["dt"]), "ts": q(c["ts"]), "te": q(c["te"]), "data": [q(x) for x in c["data"]]}
+    skw = c.get("solver_options") or {}
+    if skw:
+        req.update({"maxiter": skw["maxiter"], "maxerror": q(skw["maxerror"]), "alpha": q(skw.get("explicit_fraction", 0))})
+    return req
+
+
+def run_leg(ctx):
+    """correspondence of `cellRun` (the term of the run theorems) with real simulations"""
+    from harness.common.lean import LeanBatch
+
+    rng = ctx.rng
+    n_run = ctx.budget(72, 288)
+    cases = []
+    while len(cases) < n_run:
+        for st in RUN_STRATA:
+            cases.append((gen_run(rng, st), "%s%d:%s:%s" % st[:4]))
+    batch = LeanBatch(ctx.workdir)
+    ids = [batch.add("c05.run", run_request(c)) for c, _ in cases]
+    from concurrent.futures import ThreadPoolExecutor
+    pool = ThreadPoolExecutor(1)
+    fut = pool.submit(batch.run)  # the model driver (one process) works while the real runs are executed
+    solver_name = RUN_SOLVER
+    args = [(c["grid"], c["eq"], c["coef"], solver_name[c["scheme"]], c["backend"], c["dt"], c["ts"], c["te"], c["data"], c["solver_options"])
+            for c, _ in cases]
+    res = run_many("harness.c05", "run_case", args, env={"NUMBA_DISABLE_JIT": "1"}, procs=16)
+    n_j = ctx.budget(3, 16)
+    jit_ids = sorted(rng.sample(range(len(cases)), min(n_j, len(cases))))
+    res_j = dict(zip(jit_ids, run_many("harness.c05", "run_case", [args[i][:4] + ("numba",) + args[i][5:] for i in jit_ids],
+                                       env={"NUMBA_DISABLE_JIT": "0"}, procs=16)))
+    answers = fut.result()
+    pool.shutdown()
+    for k, ((c, label), i) in enumerate(zip(cases, ids)):
+        cls = CLS[c["grid"]["cls"]]
+        ctx.count(c, nontrivial=len(set(c["data"])) > 1, leg="run")
+        ctx.hist("run", label)
+        st, ans = answers[i]
+        for mode, rr in (("source", res[k]), ("jit", res_j.get(k))):
+            if rr is None:
+                continue
+            key = dict(c, mode=mode)
+            ctx.impl_traces += 1
+            if not isinstance(rr, str) and "error" in rr and "ConvergenceError" in rr["error"]:
+                ctx.hist("run-outcome", f"{c['scheme']}: ConvergenceError")
+                if st == "ok":
+                    ctx.disagree("run:convergence", key, "converges", rr["error"], "the real solver raised a ConvergenceError, the model's fixed-point loop returned")
+                continue
+            if isinstance(rr, str) or "error" in rr:
+                ctx.disagree("run", key, "runs", rr if isinstance(rr, str) else rr["error"], "real run failed")
+                continue
+            ctx.hist("run-outcome", f"{c['scheme']}: ok")
+            ctx.monitor_evals += 1
+            if not judge_run(rr):
+                ctx.monitor_fail("run", key, {"initial": rr["i0"], "final": rr["i1"], "scale": rr["scale"]}, "integral after the run = initial integral",
+                                 f"{c['eq']} with {c['scheme']}/{c['backend']}: integral changes over a fixed-step run",
+                                 key={"eq": c["eq"], "solver": solver_name[c["scheme"]], "backend": c["backend"]})
+            if st != "ok":
+                ctx.disagree("run", key, f"model error {ans}", "runs")
+                continue
+            ctx.hist("run-steps", str(rr["steps"]))
+            if int(ans["steps"]) != rr["steps"]:
+                ctx.disagree("run:steps", key, ans["steps"], rr["steps"], "total number of steps differs from solverRuns (stepCount per stepper call)")
+                continue
+            model = np.array([float(unq(x)) for x in ans["state"]])
+            real = np.array(rr["data"])
+            scale = 1.0 + float(np.abs(real).max()) + float(np.abs(model).max())
+            if model.shape != real.shape or not np.all(np.abs(model - real) <= 1e-10 * scale):
+                ctx.disagree("run:state", key, [float(x) for x in model], rr["data"], "state after the run differs from solverRuns")
+            if abs(float(unq(ans["t"])) - rr["t"]) > 1e-12 * (1 + abs(rr["t"])):
+                ctx.disagree("run:time", key, ans["t"], rr["t"], "returned time differs")
+            pi = math.pi ** pi_power(cls)
+            vol = 1.0 + abs(rr["i0"]) + abs(rr["i1"])
+            if abs(float(unq(ans["mass0"])) * pi - rr["i0"]) > 1e-10 * vol or abs(float(unq(ans["mass1"])) * pi - rr["i1"]) > 1e-10 * vol * scale:
+                ctx.disagree("run:integral", key, [ans["mass0"], ans["mass1"]], [rr["i0"], rr["i1"]], "cellMass differs from state.integral")
+            if unq(ans["mass0"]) != unq(ans["mass1"]):
+                ctx.disagree("run:theorem-term", key, ans["mass1"], ans["mass0"], "the model run does not keep cellMass exactly")
+
+
 # ------------------------------------------------------------------------------------------
 def run(ctx):
+    run_leg(ctx)
     from harness.common.lean import LeanBatch
 
     rng = ctx.rng
@@ -289,7 +479,7 @@ def run(ctx):
     jobs = []
     for k in range(n_int):
         if k % 4 == 3:
-            op, rank, classes = "divergence", 1, ("cart", "sph", "polar")
+            op, rank, classes = "divergence", 1, ("cart", "sph", "polar", "cyl")
         else:
             op, rank, classes = "laplace", 0, None
         c = gen_case_rank(rng, rank, ctx.hist, classes, max_axes=3)
@@ -530,6 +720,15 @@ def replay(ctx, rep):
             return False
         dev, bad, sc, judged = judge_sim(rr)
         return not bad and len(rr["rec"]) >= 2
+    if rep["leg"] == "run":
+        rr = run_one("harness.c05", "run_case", (c["grid"], c["eq"], c["coef"], RUN_SOLVER[c["scheme"]],
+                                                 "numba" if c.get("mode") == "jit" else c["backend"], c["dt"], c["ts"], c["te"], c["data"],
+                                                 c.get("solver_options", {})),
+                     env={"NUMBA_DISABLE_JIT": "0" if c.get("mode") == "jit" else "1"})
+        print(rr)
+        if isinstance(rr, str) or "error" in rr:
+            return False
+        return judge_run(rr)
     # the integral and cons legs only produce model/code disagreements (broken ties); run.py replays those by re-running the
     # whole check of the recorded seed and tier (kind == "no-failing-input-found") and never calls this function for them
     print(f"leg {rep['leg']!r} has no property monitor of its own: cannot be replayed as a failing input -> REPLAY-FAIL")
